@@ -476,7 +476,7 @@ func c20checkSnapshot(ids []string, capacity int, quiescent bool, total int, per
 
 func c20layout(tier string) (seq, conc int) {
 	if tier == "thorough" {
-		return 96000, 4000
+		return 48000, 4000
 	}
 	return 4800, 200
 }
